@@ -31,9 +31,10 @@ def make_value(cls, rep=0):
         'int': [lambda: 3, lambda: 10 ** 400, lambda: -(2 ** 1024), lambda: 0],
         'ifloat': [lambda: 2.0, lambda: 1e300, lambda: -0.0],
         'float': [lambda: 1.5, lambda: float('inf'), lambda: float('nan'), lambda: 5e-324],
-        'let_int': [lambda: Constant('c', 2), lambda: Constant('c', 10 ** 400)],
-        'let_ifloat': [lambda: Constant('c', 2.0), lambda: Constant('c', 1e300)],
-        'let_float': [lambda: Constant('c', 1.5), lambda: Constant('c', float('inf'))],
+        # (third representatives: a constant defined by another constant - the API allows Constant(name, Constant))
+        'let_int': [lambda: Constant('c', 2), lambda: Constant('c', 10 ** 400), lambda: Constant('d', Constant('c', 2))],
+        'let_ifloat': [lambda: Constant('c', 2.0), lambda: Constant('c', 1e300), lambda: Constant('d', Constant('c', 2.0))],
+        'let_float': [lambda: Constant('c', 1.5), lambda: Constant('c', float('inf')), lambda: Constant('d', Constant('c', 1.5))],
         'param_none': [lambda: Parameter('p', None)], 'param_qubit': [lambda: Parameter('p', ParamType.QUBIT)],
         'param_register': [lambda: Parameter('p', ParamType.REGISTER)], 'param_int': [lambda: Parameter('p', ParamType.INT)],
         'param_float': [lambda: Parameter('p', ParamType.FLOAT)], 'other': [lambda: 'text', lambda: None, lambda: [1]],
